@@ -111,13 +111,7 @@ def run(ctx, rep, tier):
                 early_atoms.add(a)
     rep.check(len(early_atoms) == 1 and "transition.actions" in next(iter(early_atoms)), "C02.d", TB, "needs_early_advance source",
               f"needs_early_advance is not computed from may_return_early() over transition.actions: {sorted(early_atoms)}")
-    nec = model.func("CodegenCtx._needs_end_check")
-    nsrc = ast.unparse(nec)
-    ok = "may_return_early()" in nsrc and ".actions" in nsrc and "all_transitions" in nsrc
-    rets = [n for n in walk_no_nested(nec) if isinstance(n, ast.Return)]
-    ok = ok and any(isinstance(r.value, ast.Constant) and r.value.value is True for r in rets)
-    rep.check(ok, "C02.d", "CodegenCtx._needs_end_check", "end check computed from may_return_early",
-              "_needs_end_check no longer returns True when some transition carries an action that may return early: re-entry would read past `end`")
+    check_needs_end_check(ctx, rep)
     rep.floor("C02.d", 10)
 
     # ------------------------------------------------------------ feed prologue
@@ -190,3 +184,62 @@ def run(ctx, rep, tier):
     if not (DECL_RX.match("    static int x;") and DECL_RX.match("uint8_t saved = inval;") and not DECL_RX.match("state->c.x = 3;")):
         raise AnalysisError("C02.c fixture: declaration recogniser broken")
     rep.ok("C02.c", "fixture", "`static int x;` recognised, `state->c.x = 3;` not", nontrivial=False)
+
+
+def check_needs_end_check(ctx, rep, RULE="C02.d"):
+    """_needs_end_check must be True under ZERO_LEN_INPUT_SUPPORT and whenever *any* transition carries an action that may
+    return early: every loop-body path either sees may_return_early()=True and returns constant True, or sees it False."""
+    from ..emit import SConst, SAlias
+    fnq = "CodegenCtx._needs_end_check"
+    fp = ctx.emit.enumerate(fnq)
+    saw_zero = saw_loop = False
+    for p in fp.paths:
+        z = p.atoms.get("F:ZERO_LEN_INPUT_SUPPORT")
+        if z is True:
+            saw_zero = True
+            ok = p.end and p.end[0] == "return" and isinstance(p.end[1], SConst) and p.end[1].value is True
+            rep.check(ok, RULE, fnq, "zero-length support => entry check", "with ZERO_LEN_INPUT_SUPPORT the entry test must be emitted")
+            continue
+        loops = [e for e in p.effects if e.startswith("loop over ")]
+        dom = [e for e in loops if "all_transitions" in e or "self.dfa.states" in e]
+        if not dom:
+            rep.bad(RULE, fnq, "iteration domain", f"_needs_end_check no longer scans the machine's transitions ({loops})")
+            continue
+        saw_loop = True
+    # analyse the loop body alternatives by re-walking the For statement
+    fn = ctx.model.func(fnq)
+    loop = next((n for n in ast.walk(fn) if isinstance(n, ast.For)), None)
+    if loop is None:
+        raise AnalysisError("_needs_end_check: loop over transitions not found")
+    from ..emit import Path, SSym
+    E = ctx.emit
+    E.self_class = "CodegenCtx"
+    E._fn_stack = [fnq]
+    pth = Path()
+    pth.env["self"] = SSym("self")
+    for x in ast.walk(loop.target):
+        if isinstance(x, ast.Name):
+            pth.env[x.id] = SSym(x.id)
+    body_paths = E._exec_block(loop.body, pth)
+    n = 0
+    for bp in body_paths:
+        early = [(a, v) for a, v in bp.atoms.items() if "may_return_early" in a]
+        key = ", ".join(f"{a}={'T' if v else 'F'}" for a, v in sorted(bp.atoms.items()))
+        n += 1
+        if not early:
+            rep.bad(RULE, fnq, f"transition skipped unseen [{key}]",
+                    "a transition is skipped without looking at whether its actions may return early: a yield on such a transition "
+                    "returns with start == end and the re-entered feed reads past the chunk")
+            continue
+        a, v = early[0]
+        if ".actions" not in a:
+            rep.bad(RULE, fnq, "early-return test subject", f"may_return_early is not evaluated over the transition's actions: {a}")
+        if v:
+            ok = bp.end and bp.end[0] == "return" and isinstance(bp.end[1], SConst) and bp.end[1].value is True
+            rep.check(ok, RULE, fnq, f"early-returning action => True [{key}]",
+                      "a transition with an action that may return early does not make _needs_end_check return constant True")
+        else:
+            ok = bp.end is None or bp.end[0] in ("continue",)
+            rep.check(ok, RULE, fnq, f"no early return => next transition [{key}]", "loop leaves early on a transition without early-returning actions")
+    if not (saw_zero and saw_loop and n >= 2):
+        raise AnalysisError("_needs_end_check: expected structure (flag test, loop over transitions) not found")
